@@ -71,6 +71,11 @@ def gen_cases(rng, tier):
         yield {'api': 'create', 'store': kind, 'lines': lines, 'req': req, 'reject': True}
     for (kind, lines) in [s for s in STORES if s[0] == 'lines']:
         yield {'api': 'config', 'store': kind, 'lines': lines, 'req': '9998', 'reject': True}
+    # ... after an earlier request on the same Tor object failed (Tor had no usable port then and refused to add one): the next request,
+    # made when Tor does have one, gets it
+    for (kind, lines) in STORES:
+        if kind == 'lines' and any(usable_for(l, None) for l in lines):
+            yield {'api': 'tor', 'store': kind, 'lines': lines, 'req': None, 'after_failure': True}
     # Tor._default_socks_endpoint(): asked twice — the second answer is the first one, and Tor hears nothing more
     for (kind, lines) in STORES:
         yield {'api': 'tor', 'store': kind, 'lines': lines, 'req': None}
@@ -120,8 +125,18 @@ def run_impl(c):
     res = {}
     if c['api'] == 'tor':
         from txtorcon.controller import Tor
-        st = make_tor(c)
-        tor = Tor(reactor, st.proto)
+        if c.get('after_failure'):
+            st = make_tor({'store': 'unset-nodefault', 'reject': True})
+            tor = Tor(reactor, st.proto)
+            first = []
+            tor._default_socks_endpoint().addCallbacks(lambda ep: first.append('ok'), lambda f: first.append('fail') and None)
+            if first != ['fail']:
+                return {'setconf': [], 'endpoint': 'setup:first-request-did-not-fail:%r' % (first,), 'second': 'pending', 'same_object': False,
+                        'getconf_answer': c['lines']}
+            st.store['SocksPort'] = list(c['lines'])
+        else:
+            st = make_tor(c)
+            tor = Tor(reactor, st.proto)
         n0 = len(st.commands('SETCONF'))
         out, eps = [], []
         if c.get('concurrent'):
@@ -357,7 +372,7 @@ def run_cases(cases, drv, tier):
                 # (two requests made at once are two look-ups: the same endpoint, not necessarily the same object)
                 ok2 = (im['second'] == im['endpoint']) and (im['same_object'] or im['endpoint'].startswith('fail') or bool(c.get('concurrent'))) and len(im['setconf']) <= 1
                 prop_ok = ok2 if prop_ok is None else (prop_ok and ok2)
-        tags = [c['api'] + ('-rejected' if c.get('reject') else '') + ('-concurrent' if c.get('concurrent') else ''), 'store=' + c.get('store', '-'), 'req=' + ('none' if c.get('req') is None else 'given')]
+        tags = [c['api'] + ('-rejected' if c.get('reject') else '') + ('-concurrent' if c.get('concurrent') else '') + ('-after-failure' if c.get('after_failure') else ''), 'store=' + c.get('store', '-'), 'req=' + ('none' if c.get('req') is None else 'given')]
         res.append(Result(c, im, model, spec, corr_ok=corr_ok, prop_ok=prop_ok, in_h=True,
                           nontrivial=bool(c.get('lines')) or any(o != 'ok' for o in c.get('outs', [])), tags=tags))
     return res
